@@ -47,6 +47,18 @@ their own; signatures = the signature the same failure has with the library's da
                        Interval / BedGraph input and are not given other tables); genomes of 2..4 contigs (thorough 1..5), plain /
                        sort_names / with_ignored_added; many contigs: genomes 1 .. 13 (thorough: + 24)
 
+Many chunks (cases with "contract": "many_chunks"; evaluated after the ragged key columns, under a budget of their own;
+signatures "many-chunks:<groupby | sync | genome_api | similarity>:<what is wrong>"):
+  one long contig      one contig - first / in the middle / last in the genome, the only one with data, two back to back - whose
+                       entries are spread over P chunks of the stream (a long chromosome read with a small chunk size): every P in
+                       1..72 (thorough 1..300) and around larger multiples of 16 / powers of two (127..130; thorough 511..514,
+                       1023..1026); chunk length 1, and 2 / 3 with every phase of the first chunk (chunk borders inside and at the
+                       group borders); contigs of size 8192 (unique ids of hundreds of entries), bedgraph value uid + 1
+  contracts            groupby (StringArray / StringEncoding / ragged keys), iter_chromosomes, multistream, left_join, Genome API
+                       (get_intervals(stream).compute() / .get_pileup(), get_track(stream); also bed / bedgraph files read with
+                       read_chunks(min_chunk_size = 1..3 lines)), jaccard / forbes with a, b or both streamed; rejected orders
+                       (a misordered / unknown group after the long one) must still raise
+
 Entries are identified by a unique id (start == uid, stop == uid+1, bedgraph value == 2**uid), so any entry that is
 lost, duplicated or handed to another contig is visible in every observer.
 """
@@ -280,8 +292,9 @@ def uids_of_rows(rows, entries, problems):
     return out
 
 
-def decode_track_rows(tbl, size_of, mode, problems):
-    """run-length rows (chromosome,start,stop,value) -> [(label, [uids])]; rows of one label must tile [0,size)"""
+def decode_track_rows(tbl, size_of, mode, problems, value_of=None):
+    """run-length rows (chromosome,start,stop,value) -> [(label, [uids])]; rows of one label must tile [0,size)
+    value_of: value of the track entry that starts at x (default 2**x)"""
     names = names_of(tbl.chromosome)
     starts = [int(x) for x in tbl.start.tolist()]
     stops = [int(x) for x in tbl.stop.tolist()]
@@ -299,7 +312,7 @@ def decode_track_rows(tbl, size_of, mode, problems):
                     if mode == "pileup":
                         uids.extend([x] * int(round(v)))
                     else:
-                        if v != float(2 ** x):
+                        if v != (float(2 ** x) if value_of is None else value_of(x)):
                             problems.append("value %r at %s:%d is not the value of the entry starting there" % (v, label, x))
                         uids.append(x)
         if label in size_of and pos != size_of[label]:
@@ -646,8 +659,224 @@ def eval_groupby(col, case, tmp=None):
     return col.check(out[1] == exp, base + ":wrong-groups" + suffix, case, "got %r expected %r" % (out[1], exp)) and ok
 
 
+# ----------------------------------------------------------------------------------------------- contract G: many chunks
+# One contig whose entries are spread over MANY chunks of the stream (a long chromosome read with a small chunk size): the
+# per-chunk groups of that contig have to be stitched back together without losing a piece.  Contig sizes are BIG so that the
+# unique ids (start == uid) of hundreds of entries fit; bedgraph values are uid + 1 (2**uid is not representable there).
+BIG = 8192
+MC_NAMES = NAMES[:4]
+
+
+def uniform_chunks(N, first, c):
+    """chunk lengths: a first chunk of `first` entries, then chunks of c entries, the rest in the last one"""
+    out, left = [], N
+    if left:
+        out.append(min(first, left))
+        left -= out[-1]
+    while left:
+        out.append(min(c, left))
+        left -= out[-1]
+    return out
+
+
+def pieces_of(groups, chunks):
+    """[number of chunks that hold entries of the i-th group] - from the layout alone"""
+    owner, out = [], []
+    for ci, c in enumerate(chunks):
+        owner.extend([ci] * c)
+    p = 0
+    for _, k in groups:
+        out.append(len(set(owner[p:p + k])))
+        p += k
+    return out
+
+
+_BIG_GENOMES = {}
+
+
+def big_genome(n):
+    key = (n, os.environ.get("BIONUMPY_REPO", ""))
+    if key not in _BIG_GENOMES:
+        import bionumpy as bnp
+        _BIG_GENOMES[key] = bnp.Genome.from_dict({nm: BIG for nm in MC_NAMES[:n]})
+    return _BIG_GENOMES[key]
+
+
+def mc_table(entries, kind, col=None):
+    if kind == "bedgraph" and col != RAGGED:
+        return table_class(kind).from_entry_tuples([(nm, s, e, float(s + 1)) for nm, s, e in entries])
+    return make_table(entries, kind, col)
+
+
+def mc_stream(entries, chunks, kind="interval", col=None):
+    from bionumpy.streams import NpDataclassStream
+    return NpDataclassStream(iter([mc_table(c, kind, col) for c in split_chunks(entries, chunks)]), dataclass=table_class(kind, col))
+
+
+def mc_sim_entries(groups, which):
+    """per contig j-th entry: a -> [3j, 3j+2), b -> [3j+1, 3j+3)"""
+    return sim_entries(groups, which)
+
+
+def eval_many_chunks(col, case, tmp=None):
+    """case: api, n, groups [[name, k]], chunking [first, c] (see uniform_chunks) [, consumer, sizes, col, keys, input, streamed]
+    signatures: 'many-chunks:' + <layer: groupby | sync (iter_chromosomes, MultiStream, left_join) | genome_api | similarity> + ':' +
+    <what is wrong>; entry point, input form, consumer and key storage are in the recorded case"""
+    import bionumpy as bnp
+    api, n = case["api"], case["n"]
+    G = [(nm, BIG) for nm in MC_NAMES[:n]]
+    Gn = [g for g, _ in G]
+    groups = [tuple(g) for g in case["groups"]]
+    entries = entries_of(groups)
+    first, c = case["chunking"]
+    chunks = uniform_chunks(len(entries), first, c)
+    kcol = case.get("col")
+    consumer = case.get("consumer", "exhaust")
+    assert len(entries) < BIG
+    col.case(case, nontrivial=bool(groups), contract="many_chunks." + api)
+
+    if api == "groupby":
+        from bionumpy.streams import groupby, NpDataclassStream
+        from bionumpy.bnpdataclass import replace
+        from bionumpy.encoded_array import EncodedArray
+        from bionumpy.encodings.string_encodings import StringEncoding
+        import numpy as np
+        keys = case["keys"]
+        kc = RAGGED if keys == "ragged" else None
+        labels = list(reversed(MC_NAMES))
+
+        def conv(tbl, part):
+            if keys == "enc":
+                return replace(tbl, chromosome=EncodedArray(np.array([labels.index(nm) for nm, _, _ in part]), StringEncoding(labels)))
+            return tbl
+
+        def go():
+            problems, out = [], []
+            data = NpDataclassStream(iter([conv(mc_table(p, "interval", kc), p) for p in split_chunks(entries, chunks)]),
+                                     dataclass=table_class("interval", kc))
+            for key, tbl in groupby(data, "chromosome"):
+                rows = rows_of(tbl)
+                if any(r[0] != str(key) for r in rows):
+                    problems.append("group %r contains rows %r" % (key, rows[:5]))
+                out.append((str(key), uids_of_rows(rows, entries, problems)))
+            return ("done", out, problems)
+
+        out = capture(go)
+        base = "many-chunks:groupby"  # one signature per layer: the key storage / input form / consumer is in the recorded case
+        if out[0] == "raised":
+            col.fail("%s:spurious-error:%s" % (base, out[1]), case, out[2])
+            return False
+        exp = [(nm, [u for x, u, _ in entries if x == nm]) for nm, _ in groups]
+        ok = True
+        if out[2]:
+            ok = col.check(False, base + ":malformed-output", case, "; ".join(out[2][:3]))
+        if out[1] != exp:
+            lost = sorted(set(u for _, us in exp for u in us) - set(u for _, us in out[1] for u in us))
+            col.fail(base + ":wrong-groups", case, "groups in %r pieces: got sizes %r expected %r; lost uids %r"
+                     % (pieces_of(groups, chunks), [(k, len(u)) for k, u in out[1]], [(k, len(u)) for k, u in exp], lost[:10]))
+            return False
+        return ok
+
+    if api in ("jaccard", "forbes"):
+        from bionumpy.arithmetics import forbes, jaccard
+        ea, eb = mc_sim_entries(groups, "a"), mc_sim_entries(groups, "b")
+        streamed = case["streamed"]
+
+        def go():
+            a = mc_stream(ea, chunks, "interval", kcol) if "a" in streamed else mc_table(ea, "interval", kcol)
+            b = mc_stream(eb, chunks, "interval", kcol) if "b" in streamed else mc_table(eb, "interval", kcol)
+            return ("done", float((forbes if api == "forbes" else jaccard)(dict(G), a, b)))
+
+        out = capture(go)
+        base = "many-chunks:similarity"
+        if out[0] == "raised":
+            col.fail("%s:spurious-error:%s" % (base, out[1]), case, out[2])
+            return False
+        A = {(nm, x) for nm, s, e in ea for x in range(s, e)}
+        B = {(nm, x) for nm, s, e in eb for x in range(s, e)}
+        N = sum(s for _, s in G)
+        a_, b_, c_ = len(A & B), len(A - B), len(B - A)
+        d_ = N - a_ - b_ - c_
+        exp = a_ * N / ((a_ + b_) * (a_ + c_)) if api == "forbes" else a_ / (N - d_)
+        if not math.isclose(out[1], exp, rel_tol=1e-9, abs_tol=1e-12):
+            col.fail(base + ":wrong-value", case, "groups in %r pieces: got %r expected %r" % (pieces_of(groups, chunks), out[1], exp))
+            return False
+        return True
+
+    flat = False
+    if api == "iter_chromosomes":
+        from bionumpy.datatypes import Interval
+
+        def go():
+            ctx = big_genome(n).get_genome_context()
+            it = ctx.iter_chromosomes(mc_stream(entries, chunks, "interval", kcol), table_class("interval", kcol) if kcol else Interval)
+            problems = []
+            tables = list(it) if consumer == "exhaust" else [t for _, t in zip(list(ctx.chrom_sizes.values()), it)]
+            return ("done", [(None, uids_of_rows(rows_of(t), entries, problems)) for t in tables], problems)
+    elif api == "multistream":
+        from bionumpy.datatypes import ChromosomeSize
+        from bionumpy.streams import MultiStream
+        from bionumpy.streams.multistream import SequenceSizes
+
+        def go():
+            kind = case.get("sizes", "dict")
+            sizes = ChromosomeSize(Gn, [s for _, s in G]) if kind == "chromsize" else SequenceSizes(G) if kind == "seqsizes" else dict(G)
+            ms = MultiStream(sizes, a=mc_stream(entries, chunks, "interval", kcol), v={g: i for i, g in enumerate(Gn)})
+            problems = []
+            if consumer == "exhaust":
+                return ("done", [(None, uids_of_rows(rows_of(t), entries, problems)) for t in ms.a], problems)
+            out = []
+            for j, (length, name, v, t) in enumerate(zip(ms.lengths, ms.sequence_names, ms.v, ms.a)):
+                name = str(name)
+                if j >= len(G) or (name, int(length), v) != (G[j][0], G[j][1], j):
+                    problems.append("item %d: lengths/names/indexed stream gave %r" % (j, (length, name, v)))
+                out.append((name, uids_of_rows(rows_of(t), entries, problems)))
+            return ("done", out, problems)
+    elif api == "left_join":
+        from bionumpy.streams import groupby
+        from bionumpy.streams.left_join import left_join
+
+        def go():
+            problems, out = [], []
+            right = groupby(mc_stream(entries, chunks, "interval", kcol), "chromosome")
+            for j, (name, size, data) in enumerate(left_join(list(G), right)):
+                if j >= len(G) or (name, size) != G[j]:
+                    problems.append("item %d: left side gave %r" % (j, (name, size)))
+                out.append((name, [] if data is None else uids_of_rows(rows_of(data), entries, problems)))
+            return ("done", out, problems)
+    elif api in ("intervals.compute", "intervals.pileup_data", "track.data"):
+        kind = "bedgraph" if api == "track.data" else "interval"
+        flat = api == "intervals.compute"
+        size_of = dict(G)
+
+        def go():
+            problems = []
+            genome = big_genome(n)
+            if case.get("input") == "file":
+                # fixed-width numbers; one chunk of the reader = c lines of the widest kind
+                path = os.path.join(tmp, "c12_mc_%d.%s" % (col.evaluations, "bed" if kind == "interval" else "bdg"))
+                lines = ["%s\t%04d\t%04d%s\n" % (nm, s, e, "" if kind == "interval" else "\t%04d" % (s + 1)) for nm, s, e in entries]
+                with open(path, "w") as f:
+                    f.write("".join(lines))
+                data = bnp.open(path).read_chunks(min_chunk_size=max(len(x) for x in lines) * c)
+            else:
+                data = mc_stream(entries, chunks, kind, kcol)
+            obj = genome.get_intervals(data) if kind == "interval" else genome.get_track(data)
+            if api == "intervals.compute":
+                return ("done", [(None, uids_of_rows(rows_of(obj.compute().get_data()), entries, problems))], problems)
+            if api == "intervals.pileup_data":
+                return ("done", decode_track_rows(bnp.compute(obj.get_pileup().get_data()), size_of, "pileup", problems), problems)
+            return ("done", decode_track_rows(bnp.compute(obj.get_data()), size_of, "track", problems, value_of=lambda x: float(x + 1)),
+                    problems)
+    else:
+        raise ValueError(api)
+    base = "many-chunks:" + ("sync" if api in ("iter_chromosomes", "multistream", "left_join") else "genome_api")
+    return judge(col, base, case, G, set(), groups, capture(go), flat=flat)
+
+
 EVAL = {"iter_chromosomes": eval_iter_chromosomes, "genome_api": eval_genome_api, "multistream": eval_multistream,
-        "similarity": eval_similarity, "left_join": eval_left_join, "groupby": eval_groupby}
+        "similarity": eval_similarity, "left_join": eval_left_join, "groupby": eval_groupby,
+        "many_chunks": eval_many_chunks}
 
 
 # ----------------------------------------------------------------------------------------------- enumeration
@@ -1281,6 +1510,163 @@ def cases_ragged_many(thorough):
                            "input": "stream"}
 
 
+# ----------------------------------------------------------------------------------------------- extended scope: many chunks
+MC_LAYOUTS = {  # the long contig (k == "L") first / in the middle / last in the genome, alone, two long ones back to back
+    "middle": [["chr1", 2], ["chr10", "L"], ["chr2", 3]],
+    "first": [["chr1", "L"], ["chr2", 1], ["chrX", 2]],
+    "last": [["chr10", 1], ["chrX", "L"]],
+    "only": [["chr2", "L"]],
+    "two": [["chr10", "L"], ["chr2", "L+1"]],
+}
+MC_INVALID = {  # a long group followed by a group the genome cannot accept there (consumer: exhaust)
+    "misordered-early": [["chr10", "L"], ["chr1", 1]],
+    "misordered-late": [["chr2", 1], ["chrX", "L"], ["chr1", 1]],
+    "unknown-early": [["chr10", "L"], [UNKNOWN, 1]],
+}
+
+
+def mc_groups(layout, L):
+    return [[nm, L if k == "L" else L + 1 if k == "L+1" else k] for nm, k in layout]
+
+
+def mc_edges(upto):
+    """piece counts at and around the multiples of 16 and the powers of two (block-wise / pair-wise joining), and the small ones"""
+    s = {1, 2, 3, 4, 5, 7, 8, 9}
+    for m in range(16, upto + 16, 16):
+        s.update((m - 1, m, m + 1, m + 2))
+    return sorted(p for p in s if p <= upto)
+
+
+def mc_lengths(layout, first, c, pieces):
+    """lengths L of the long group for which its number of pieces is in `pieces`: for every such count the smallest and the
+    largest L that gives it (c == 1: exactly one)"""
+    want, by_p = set(pieces), {}
+    for L in range(1, (max(want) + 1) * c + 1):
+        groups = mc_groups(layout, L)
+        N = sum(k for _, k in groups)
+        li = [i for i, (_, k) in enumerate(layout) if k == "L"][0]
+        p = pieces_of(groups, uniform_chunks(N, first, c))[li]
+        if p in want:
+            by_p.setdefault(p, []).append(L)
+    out = []
+    for p in sorted(by_p):
+        for L in dedupe([by_p[p][0], by_p[p][-1]]):
+            out.append(L)
+    return out
+
+
+def cases_many_chunks(thorough):
+    """P = number of chunks that hold entries of the long contig.  e(u): P in 1..9 and around every multiple of 16 up to u;
+    r(u): every P in 1..u.  The bounds per entry point are listed in col.bounds['many_chunks']."""
+    T = thorough
+    n = 4
+    e = mc_edges
+    far = [127, 128, 129, 130] + ([511, 512, 513, 514, 1023, 1024, 1025, 1026] if T else [])
+
+    def r(u):
+        return list(range(1, u + 1))
+
+    def u_(*lists):
+        return sorted(set(itertools.chain.from_iterable(lists)))
+
+    def mk(api, layout, L, first=1, c=1, **kw):
+        return dict({"contract": "many_chunks", "api": api, "n": n, "groups": mc_groups(layout, L), "chunking": [first, c]}, **kw)
+
+    M = MC_LAYOUTS["middle"]
+    others = [k for k in MC_LAYOUTS if k != "middle"]
+
+    def g_groupby():
+        for L in u_(r(160), e(274), far) if T else u_(r(72), far):
+            yield mk("groupby", M, L, keys="str")
+        for lname in others:
+            for L in (u_(r(72), e(130)) if T else e(66)):
+                yield mk("groupby", MC_LAYOUTS[lname], L, keys="str")
+        for keys in ("enc", "ragged"):
+            for L in (u_(r(72), e(130)) if T else e(66)):
+                yield mk("groupby", M, L, keys=keys)
+        for c in (2, 3):
+            for first in range(1, c + 1):
+                for L in mc_lengths(M, first, c, r(40) if T else e(34)):
+                    yield mk("groupby", M, L, first, c, keys="str")
+
+    def g_multistream():
+        for i, L in enumerate(u_(r(160), e(274), far[:4]) if T else r(72)):
+            yield mk("multistream", M, L, consumer="exhaust", sizes=("dict", "chromsize", "seqsizes")[i % 3])
+        for lname in others:
+            for L in (r(72) if T else e(34)):
+                yield mk("multistream", MC_LAYOUTS[lname], L, consumer="exhaust")
+        for L in (r(72) if T else e(66)):
+            yield mk("multistream", M, L, consumer="zip")
+        for c, first in ((2, 1), (2, 2), (3, 1), (3, 2), (3, 3)) if T else ((2, 1), (2, 2), (3, 1)):
+            for L in mc_lengths(M, first, c, e(66) if T else e(34)):
+                yield mk("multistream", M, L, first, c, consumer="exhaust")
+        for L in (e(130) if T else e(34)):
+            yield mk("multistream", M, L, consumer="exhaust", col=RAGGED)
+
+    def g_iter():
+        for L in (u_(r(72), e(274)) if T else e(66)):
+            yield mk("iter_chromosomes", M, L, consumer="exhaust")
+        for lname in (others if T else ("last", "first")):
+            for L in (e(130) if T else e(34)):
+                yield mk("iter_chromosomes", MC_LAYOUTS[lname], L, consumer="exhaust")
+        for L in (e(130) if T else e(34)):
+            yield mk("iter_chromosomes", M, L, consumer="zip")
+        for c, first in ((2, 1), (2, 2), (3, 1), (3, 2), (3, 3)) if T else ((2, 1), (2, 2)):
+            for L in mc_lengths(M, first, c, e(66) if T else e(34)):
+                yield mk("iter_chromosomes", M, L, first, c, consumer="exhaust")
+        for L in (e(130) if T else e(18)):
+            yield mk("iter_chromosomes", M, L, consumer="exhaust", col=RAGGED)
+
+    def g_left_join():
+        for L in (u_(r(72), e(130)) if T else e(66)):
+            yield mk("left_join", M, L)
+        if T:
+            for lname in ("last", "first", "only"):
+                for L in e(66):
+                    yield mk("left_join", MC_LAYOUTS[lname], L)
+
+    def g_genome_api():
+        for api in ("intervals.compute", "intervals.pileup_data", "track.data"):
+            consumer = "exhaust" if api == "intervals.compute" else "zip"
+            if api == "intervals.compute":
+                Ls = u_(r(72), e(274), far) if T else r(72)
+            else:
+                Ls = u_(r(72), e(130)) if T else e(66)
+            for L in Ls:
+                yield mk(api, M, L, consumer=consumer)
+            for lname in (others if T else ("last",)):
+                for L in (e(66) if T else e(34)):
+                    yield mk(api, MC_LAYOUTS[lname], L, consumer=consumer)
+            for c in (2, 3) if T else (2,):
+                for L in mc_lengths(M, 1, c, e(66) if T else e(34)):
+                    yield mk(api, M, L, 1, c, consumer=consumer)
+
+    def g_files():
+        for api in ("intervals.compute", "track.data", "intervals.pileup_data"):
+            consumer = "exhaust" if api == "intervals.compute" else "zip"
+            few = [1, 15, 16, 17, 18, 33]
+            for c in (1, 2, 3):
+                for lname in ("middle", "last") if (c == 1 and T) else ("middle",):
+                    Ps = e(66) if T else e(34) if (api == "intervals.compute" and c == 1) else few
+                    for L in mc_lengths(MC_LAYOUTS[lname], c, c, Ps):
+                        yield mk(api, MC_LAYOUTS[lname], L, c, c, consumer=consumer, input="file")
+
+    def g_similarity():
+        for func in ("jaccard", "forbes"):
+            for streamed in ("ab", "a", "b"):
+                for lname in ("middle", "last") if T else ("middle",):
+                    for L in (e(66) if T else e(34) if streamed == "ab" else [1, 16, 17, 18, 33]):
+                        yield mk(func, MC_LAYOUTS[lname], L, streamed=streamed)
+
+    def g_invalid():
+        for lname, layout in MC_INVALID.items():
+            for api in ("iter_chromosomes", "multistream", "left_join", "intervals.compute"):
+                for L in (e(66) if T else [1, 16, 17, 18, 33]):
+                    yield mk(api, layout, L, consumer="exhaust")
+
+    return _interleave([g_groupby(), g_multistream(), g_iter(), g_left_join(), g_genome_api(), g_files(), g_similarity(), g_invalid()])
+
+
 def ragged_cases(tier):
     """round-robin over the generators of the ragged-key-column scope"""
     thorough = tier != "quick"
@@ -1372,8 +1758,10 @@ def run(tier="quick", seed=0):
                     "{one chunk, singletons, 2-splits}, and genomes of 12..40 contigs x singles / ordered pairs / boundary triples / "
                     "rotations; then iter_chromosomes / multistream / left_join / groupby over RAGGED contig columns (user dataclass with a "
                     "`str` field) x 5-6 name alphabets incl. "
-                    "names of one character and of that character repeated (1, 11, 111; 1, 2, 11, 12, 22). distinct = distinct (contract, genome, group sequence, sizes, chunking, consumer/observer); "
-                    "non-trivial = at least one data group" % (6 if thorough else 4),
+                    "names of one character and of that character repeated (1, 11, 111; 1, 2, 11, 12, 22); then one contig spread "
+                    "over P = 1..%d (and around larger multiples of 16) chunks of the stream x position of that contig x chunk length 1..3 "
+                    "x every entry point. distinct = distinct (contract, genome, group sequence, sizes, chunking, consumer/observer); "
+                    "non-trivial = at least one data group" % (6 if thorough else 4, 300 if thorough else 72),
                     budget_s=55 if not thorough else 560)
     col.bounds = {"contigs": "1..4 exhaustive (genome API and similarity: 1..%d), 5 sampled" % (4 if thorough else 3),
                   "genome_configs": list(GCFGS), "group_sequences": "all permutations of all subsets of genome names + 1 unknown + ignored name; "
@@ -1400,7 +1788,17 @@ def run(tier="quick", seed=0):
                                          if not thorough else "1..4 (repeated-character names: ..5), sort_names / with_ignored_added at 3",
                                          "many_contigs": [13] if not thorough else [13, 24],
                                          "groupby_keys": "EncodedRaggedArray; repeated-character names also StringArray / StringEncoding",
-                                         "budget_s": 11 if not thorough else 70}}
+                                         "budget_s": 11 if not thorough else 70},
+                  "many_chunks": {"what": "one contig (first / middle / last of the genome, alone, two back to back) whose entries are spread "
+                                  "over P chunks of the stream; 4 contigs of size %d, the other contigs 0..3 entries" % BIG,
+                                  "pieces_P": "every P in 1..%s and %s (groupby, multistream, iter_chromosomes, intervals.compute; chunk "
+                                  "length 1), every P in 1..%d / P around the multiples of 16 up to %d elsewhere"
+                                  % ((300, "127..130, 511..514, 1023..1026", 130, 274) if thorough else (72, "127..130", 40, 66)),
+                                  "chunk_lengths": "1; 2 and 3 with every phase of the first chunk (smallest and largest group length per P)",
+                                  "apis": "groupby (StringArray / StringEncoding / ragged keys), iter_chromosomes, MultiStream, left_join, "
+                                  "Genome.get_intervals(stream).compute() / .get_pileup(), Genome.get_track(stream), the same from bed / "
+                                  "bedgraph files read with read_chunks(min_chunk_size = 1..3 lines), jaccard / forbes (a, b or both streamed)",
+                                  "rejected_orders": sorted(MC_INVALID), "budget_s": 9 if not thorough else 55}}
     with TmpDir() as tmp:
         stop = False
         for case in WITNESSES:
@@ -1427,6 +1825,17 @@ def run(tier="quick", seed=0):
         col.bounds["ragged_scope_evaluations"] = col.evaluations - n_ext
         col.bounds["ragged_scope_complete"] = rag_done
         col.bounds["ragged_scope_wall_s"] = round(time.time() - t_rag, 1)
+        # one contig spread over many chunks, under a budget of its own as well
+        n_rag, t_mc, mc_budget, mc_done = col.evaluations, time.time(), (9 if not thorough else 55), True
+        for case in cases_many_chunks(thorough):
+            EVAL[case["contract"]](col, case, tmp)
+            if col.evaluations % 32 == 0 and time.time() - t_mc > mc_budget:
+                mc_done = False
+                col.exhaustive = False
+                break
+        col.bounds["many_chunks_scope_evaluations"] = col.evaluations - n_rag
+        col.bounds["many_chunks_scope_complete"] = mc_done
+        col.bounds["many_chunks_scope_wall_s"] = round(time.time() - t_mc, 1)
         col.budget_s += time.time() - t_ext
         for case in enumerate_cases(tier):
             EVAL[case["contract"]](col, case, tmp)
